@@ -219,11 +219,12 @@ impl Pkt5 {
         unsafe { std::slice::from_raw_parts(self as *const Pkt5 as *const u8, V5_LEN) }
     }
     /// fix the parse-deciding header octets (call with literals, see `for_v5hdr!`)
-    pub fn set_hdr(&mut self, b0: u8, b12: u8, b14: u8, b15: u8) {
+    pub fn set_hdr(&mut self, b0: u8, b12: u8, b14: u8, b15: u8, last: u8) {
         self.h[0] = b0;
         self.h[12] = b12;
         self.h[14] = b14;
         self.h[15] = b15;
+        self.ef[26] = last;
     }
 }
 
@@ -233,14 +234,15 @@ pub fn any_pkt4() -> Pkt4 {
     Pkt4 { b: kani::any(), slack: [0; 8] }
 }
 
-/// 48 symbolic header bytes + the draft-id field with concrete type/length and text; the last
-/// character of the text and the padding byte are symbolic (so a wrong draft is reachable).
+/// 48 symbolic header bytes + the draft-id field, all concrete (a symbolic character makes the
+/// length of the decoded field list symbolic, and dropping that list then does not finish
+/// symbolic execution); the dispatch also runs one wrong draft text.
 #[cfg(kani)]
 #[rustfmt::skip]
 pub fn any_pkt5() -> Pkt5 {
     let h: [u8; 48] = kani::any();
-    let last: u8 = kani::any();
-    let pad: u8 = kani::any();
+    let last: u8 = b'9';
+    let pad: u8 = 0;
     Pkt5 {
         h,
         ef: [
@@ -252,14 +254,13 @@ pub fn any_pkt5() -> Pkt5 {
 }
 
 /// Run `$run(<literal>)` for the octet-0 value `$b` (LI<<6 | VN<<3 | Mode); other values of `$b`
-/// are assumed away. `quick`: v4 server / client / broadcast, v3 server, v5 (undecodable in 48
-/// bytes), v2 (invalid version). `full`: v4 and v3 in all eight modes with LI 0 and 3, v5 with two
+/// are assumed away. `quick`: v4 server / client, v3 server, v5 (undecodable in 48 bytes). `full`: v4 and v3 in all eight modes with LI 0 and 3, v5 with two
 /// modes, one value for each of the versions 0,1,2,6,7 and one more LI. `all`: all 256 values
 /// (about 10 s of symbolic execution per value: too slow for the tiers, kept for manual runs).
 #[macro_export]
 macro_rules! for_b0 {
     (quick, $b:expr, $run:ident) => {
-        $crate::for_b0!(@m $b, $run, [0x24, 0x23, 0x25, 0x1C, 0x2C, 0x14])
+        $crate::for_b0!(@m $b, $run, [0x24, 0x23, 0x1C, 0x2C])
     };
     (full, $b:expr, $run:ident) => {
         $crate::for_b0!(@m $b, $run, [
@@ -276,39 +277,41 @@ macro_rules! for_b0 {
     };
 }
 
-/// Run `$run(b0, b12, b14, b15)` with literal parse-deciding octets of an NTPv5 header:
-/// server mode with flags {none, synchronized, auth-NAK, interleaved|synchronized + timescale 3},
-/// request mode, LI=3, and the malformed cases (mode 5, timescale 4, reserved flag bits),
-/// plus the 76-byte template under version 4 and 3 (undecodable).
+/// Run `$run(b0, b12, b14, b15, last)` with literal parse-deciding octets of an NTPv5 header and
+/// the last character of the draft text. `quick`: server mode with flags {none, synchronized,
+/// auth-NAK}, request mode, a malformed mode and a wrong draft text. `all` adds timescales,
+/// interleaved flag, LI=3, reserved flag bits, timescale 4, and the 76-byte template under
+/// versions 4 and 3 (undecodable).
 #[macro_export]
 macro_rules! for_v5hdr {
     (quick, $sel:expr, $run:ident) => {
         match $sel {
-            0 => $run(0x2C, 0, 0, 0b000),
-            1 => $run(0x2C, 0, 0, 0b001),
-            2 => $run(0x2C, 0, 0, 0b100),
-            3 => $run(0x2B, 0, 0, 0b001),
-            4 => $run(0x2D, 0, 0, 0b001),
-            5 => $run(0x24, 0, 0, 0b001),
+            0 => $run(0x2C, 0, 0, 0b000, b'9'),
+            1 => $run(0x2C, 0, 0, 0b001, b'9'),
+            2 => $run(0x2C, 0, 0, 0b100, b'9'),
+            3 => $run(0x2B, 0, 0, 0b001, b'9'),
+            4 => $run(0x2D, 0, 0, 0b001, b'9'),
+            5 => $run(0x2C, 0, 0, 0b001, b'8'),
             _ => kani::assume(false),
         }
     };
     (all, $sel:expr, $run:ident) => {
         match $sel {
-            0 => $run(0x2C, 0, 0, 0b000),
-            1 => $run(0x2C, 0, 0, 0b001),
-            2 => $run(0x2C, 0, 0, 0b100),
-            3 => $run(0x2B, 0, 0, 0b001),
-            4 => $run(0x2D, 0, 0, 0b001),
-            5 => $run(0x24, 0, 0, 0b001),
-            6 => $run(0x2C, 3, 0, 0b011),
-            7 => $run(0xEC, 1, 0, 0b001),
-            8 => $run(0x2C, 4, 0, 0b001),
-            9 => $run(0x2C, 0, 1, 0b001),
-            10 => $run(0x2C, 0, 0, 0b1001),
-            11 => $run(0x1C, 0, 0, 0b001),
-            12 => $run(0x2C, 2, 0, 0b111),
-            13 => $run(0x2A, 0, 0, 0b001),
+            0 => $run(0x2C, 0, 0, 0b000, b'9'),
+            1 => $run(0x2C, 0, 0, 0b001, b'9'),
+            2 => $run(0x2C, 0, 0, 0b100, b'9'),
+            3 => $run(0x2B, 0, 0, 0b001, b'9'),
+            4 => $run(0x2D, 0, 0, 0b001, b'9'),
+            5 => $run(0x2C, 0, 0, 0b001, b'8'),
+            6 => $run(0x2C, 3, 0, 0b011, b'9'),
+            7 => $run(0xEC, 1, 0, 0b001, b'9'),
+            8 => $run(0x2C, 4, 0, 0b001, b'9'),
+            9 => $run(0x2C, 0, 1, 0b001, b'9'),
+            10 => $run(0x2C, 0, 0, 0b1001, b'9'),
+            11 => $run(0x24, 0, 0, 0b001, b'9'),
+            12 => $run(0x1C, 0, 0, 0b001, b'9'),
+            13 => $run(0x2C, 2, 0, 0b111, b'9'),
+            14 => $run(0x2A, 0, 0, 0b001, b'9'),
             _ => kani::assume(false),
         }
     };
